@@ -379,7 +379,7 @@ def main(argv):
                     except BaseException as e:  # noqa
                         fail("parser#ill_nested_rejected", dict(program=name, std=std, inserted_line=extra, source=src), "raised %s instead of FortranSyntaxError" % type(e).__name__)
     if "C07" in only:
-        for name in ("plain", "module", "select_where", "io_format"):
+        for name in ("plain", "module", "select_where", "io_format", "two_units", "named_constructs"):
             lines = CATALOGUE[name].splitlines()
             for li in range(len(lines)):
                 if lines[li].strip().lower().startswith(("end", "contains", "else", "case", "elsewhere")) or li == 0:
@@ -403,6 +403,21 @@ def main(argv):
                             fail("error#names_offending_line", dict(source=src, line=lineno, continued=True, comments_after=bool(tail)), dict(message=str(e)[:120], expected_prefix=want))
                     except BaseException as e:  # noqa
                         fail("error#garbage_rejected", dict(source=src), "raised %s" % type(e).__name__)
+                # blank lines (and a cpp directive at the top of the file) around the offending statement do not move the location
+                for head_lines, after in (([], ["", ""]), (["#define VERIF 1"], ["", "", ""]), (["! leading comment", ""], [""])):
+                    src = "\n".join(head_lines + lines[:li] + ["  @@ not fortran @@"] + after + lines[li + 1:]) + "\n"
+                    cases += 1
+                    lineno = len(head_lines) + li + 1
+                    for kw in (dict(), dict(ignore_comments=False)):
+                        try:
+                            parse(src, "f2003", **kw)
+                            fail("error#garbage_rejected", dict(source=src), "accepted")
+                        except FortranSyntaxError as e:
+                            want = "at line %d\n>>>  @@ not fortran @@\n" % lineno
+                            if not str(e).startswith(want):
+                                fail("error#names_offending_line", dict(source=src, line=lineno, blank_lines_after=len(after), options=kw), dict(message=str(e)[:120], expected_prefix=want))
+                        except BaseException as e:  # noqa
+                            fail("error#garbage_rejected", dict(source=src), "raised %s" % type(e).__name__)
                 for garbage in ("@@ not fortran @@", "= = ="):
                     for deco in decorations:
                         src = "\n".join(lines[:1] + deco + lines[1:li] + ["  " + garbage] + lines[li + 1:]) + "\n"
